@@ -115,6 +115,19 @@ def header_c_decls(src):
     return sorted(set(re.findall(r"\bextern\s+[\w\s\*]+?\b(masa_\w+)\s*\(", part)))
 
 
+def header_view(libdir, defines=()):
+    """the extern "C" declarations of the generated masa.h as a C translation unit sees them after preprocessing
+    (SWIG processes %include "masa.h" as C with SWIG, SWIGPYTHON defined); returns {name: normalised declaration}"""
+    rc, out, err = sh(["gcc", "-E", "-x", "c", "-P"] + ["-D" + d for d in defines] + ["-I", libdir, os.path.join(libdir, "masa.h")])
+    if rc != 0:
+        return None
+    out = re.sub(r"\s+", " ", out)
+    decls = {}
+    for m in re.finditer(r"(?:extern\s+)?([A-Za-z_][\w\s\*]*?)\b(masa_\w+)\s*\(([^;{}]*?)\)\s*;", out):
+        decls[m.group(2)] = re.sub(r"\s+", " ", "%s %s(%s)" % (m.group(1).strip(), m.group(2), m.group(3).strip()))
+    return decls
+
+
 def defined_symbols(libdir):
     rc, out, err = sh(["nm", "-g", "--defined-only", os.path.join(libdir, "libmasa.a")])
     return set(l.split()[2] for l in out.splitlines() if len(l.split()) == 3 and l.split()[1] in ("T", "W"))
@@ -262,7 +275,11 @@ def check(tier, seed):
             if len(samples) < 6:
                 samples.append({"symbol": name, "fortran_as_compiled": "%s (%s)" % (fret, ", ".join(fargs)), "c_as_compiled": "%s (%s)" % (cret, ", ".join(cargs))})
         # ---- 4: header subset of library
-        decls = header_c_decls(src)
+        view_c = header_view(libdir)
+        if view_c is None or len(view_c) < 50:
+            agg.harness_fail.append("could not preprocess the generated masa.h as C")
+            view_c = {}
+        decls = sorted(set(header_c_decls(src)) | set(view_c))
         for d in decls:
             nobs += 1
             if d not in defined:
@@ -291,8 +308,16 @@ def check(tier, seed):
         includes = re.findall(r'%include\s+"([^"]+)"', swig_nc)
         other_decl = [l for l in swig_nc.splitlines() if re.search(r"\b(extern|double|int|void)\b.*\(", l)]
         nobs += 1
-        if includes != ["masa.h"] or other_decl:
-            viol("swig-does-not-wrap-exactly-masa.h", "masa.i's declaration sources are %s plus %d own declarations; expected exactly %%include \"masa.h\"" % (includes, len(other_decl)))
+        directives = sorted(set(re.findall(r"^\s*(%\w+|#\s*\w+)", swig_nc, re.M)) - {"%module", "%include"})
+        if includes != ["masa.h"] or other_decl or directives:
+            viol("swig-does-not-wrap-exactly-masa.h", "masa.i's declaration sources are %s plus %d own declarations and directives %s; expected exactly %%include \"masa.h\"" % (includes, len(other_decl), directives))
+        # what SWIG would see: the header preprocessed with SWIG's own macros defined must declare exactly what a C compiler sees
+        view_swig = header_view(libdir, ("SWIG", "SWIGPYTHON"))
+        nobs += 1
+        if view_swig is not None and view_c:
+            for d in sorted(set(view_c) | set(view_swig)):
+                if view_c.get(d) != view_swig.get(d):
+                    viol("swig-view-of-header-differs:" + d, "masa.h declares %r to a C compiler but %r to SWIG's preprocessor (-DSWIG): the module would not wrap exactly the header" % (view_c.get(d), view_swig.get(d)))
         # ---- 3: execution through the real Fortran module
         exec_cmp = 0
         plan = make_plan(protos)
@@ -356,7 +381,7 @@ def check(tier, seed):
                        "is compared bit for bit with the C++ <double> API executing the same plan under ASan; masa.i checked lexically. Distinct = symbols.",
                "exhaustive": True, "bind_c_interfaces_in_source": n_bind, "interfaces_seen_by_compiler": len(protos), "header_declarations": len(decls),
                "fortran_execution_comparisons": exec_cmp, "callback_argument_declared_by_value": {k: v[0] for k, v in cbv.items()},
-               "swig": "swig is not installed: masa.i is only checked lexically (its sole declaration source must be %include \"masa.h\")"}
+               "swig": "swig is not installed: masa.i is checked lexically (sole declaration source %include \"masa.h\", no %ignore/%rename/#define) and the generated masa.h is preprocessed as C with and without -DSWIG -DSWIGPYTHON: both views must declare the same functions"}
         floors = [("compiler saw every bind(C,name=) interface of the source", len(protos) == n_bind and n_bind >= 80),
                   ("at least 40 extern C declarations in masa.h", len(decls) >= 40),
                   ("Fortran execution compared at least 400 results", exec_cmp >= 400 or any(v["key"].startswith("fortran-") for v in agg.viols))]
